@@ -168,15 +168,18 @@ def crash_rules(rep, funcs):
         if f.parent is None:
             ctors.setdefault(f.qname, []).append(f)
     for f in funcs:
-        if f.parent is not None or not f.qname.endswith("::analyseFile") or f.entry is None:
+        # every function that starts the analysis of another file: the analyseFile of each DSL family and the @Import handler
+        if f.parent is not None or f.entry is None or f.qname.split("(")[0].endswith("::importFile"):
             continue
-        opens = [s_ for s_, n in f.stmts.items() if n["k"] == "CXXMemberCallExpr" and (n.get("callee") or "").rsplit("::", 1)[-1] in ("importFile", "openFile")]
+        opens = [s_ for s_, n in f.stmts.items() if n["k"] == "CXXMemberCallExpr" and (n.get("callee") or "").rsplit("::", 1)[-1] in ("importFile",)]
+        if not opens and f.qname.endswith("::analyseFile"):
+            opens = [s_ for s_, n in f.stmts.items() if n["k"] == "CXXMemberCallExpr" and (n.get("callee") or "").rsplit("::", 1)[-1] in ("openFile",)]
         if not opens:
             continue
         na += 1
         guarded = False
         for s_, n in sorted(f.stmts.items()):
-            if n["k"] != "DeclStmt" or lineno(f, s_) > min(lineno(f, o_) for o_ in opens):
+            if n["k"] != "DeclStmt" or lineno(f, s_) > max(lineno(f, o_) for o_ in opens):
                 continue
             for dd in n["decls"]:
                 ce = f.stmts.get(f.strip(dd["init"])) if "init" in dd else None
@@ -196,7 +199,7 @@ def crash_rules(rep, funcs):
                      "(@MaterialLaw, @Model, @BehaviourVariable naming the file being treated) is analysed again and again until the stack is "
                      "exhausted" % (rel(f.loc), f.qname))
     rep.count("analyseFile implementations", na)
-    rep.floor("analyseFile implementations", 2)
+    rep.floor("analyseFile implementations", 3)
     rep.floor("decrements of local iterators", 3)
     rep.floor("integer divisions by a non-constant", 1)
 
@@ -255,6 +258,43 @@ def lock_unwind_rule(rep):
         rep.fail("LOCK-UNWIND@main#catch-all", "main has no catch (...) handler")
 
 
+def query_main_rule(rep):
+    """MAIN-CATCHES (mfront-query): in the compiled configuration every call of main into the mfront:: namespace (constructions included) lies
+    in a try block: an invalid input file ends in a failure status, not in std::terminate (SIGABRT, and the mfront lock left taken)."""
+    d = cfgdump([os.path.join(REPO, "mfront-query/src/mfront-query.cxx")], os.path.join(OUT, "C35", "dumpqmain"), funcs=r"^main$", root=REPO)
+    ms = [f for f in load_functions(d) if f.qname == "main" and f.parent is None]
+    if len(ms) != 1:
+        raise AnalysisBroken("main of mfront-query not found")
+    m = ms[0]
+    pm = m.parent_map()
+    n_in = n_out = 0
+    first_out = None
+    for s_, n in sorted(m.stmts.items()):
+        cal = n.get("callee") or ""
+        if re.match(r"^mfront::init[A-Z]\w*$", cal):
+            continue        # start-up registration of the DSLs and interfaces: it does not depend on the input
+        if n["k"] in ("CallExpr", "CXXMemberCallExpr", "CXXConstructExpr") and cal.startswith("mfront::") and not n.get("noexcept"):
+            q, ok = s_, False
+            while q in pm:
+                c = q
+                q = pm[q]
+                if m.stmts[q]["k"] == "CXXTryStmt" and m.kids(q) and m.kids(q)[0] == c:
+                    ok = True
+            if ok:
+                n_in += 1
+            else:
+                n_out += 1
+                first_out = first_out or s_
+    rep.count("calls of mfront-query's main into mfront::", n_in + n_out)
+    if n_out:
+        rep.fail("MAIN-CATCHES@mfront-query main", "%s: main of mfront-query calls %s outside any try block (%d such calls in the configuration that is "
+                 "compiled): an error reported by an exception - any invalid input file - ends in std::terminate and mfront-query is killed "
+                 "by SIGABRT" % (rel(m.short_loc(first_out)), m.stmts[first_out].get("callee"), n_out))
+    else:
+        rep.ok("main of mfront-query makes its %d calls into mfront:: inside a try block" % n_in)
+    rep.floor("calls of mfront-query's main into mfront::", 5)
+
+
 def run(tier):
     rep = Report("C35", tier, "other", RULE)
     allu = units_under("mfront/src")
@@ -306,6 +346,7 @@ def run(tier):
     rep.floor("loops examined for progress (libraries)", 25)
     rep.floor("loops examined for progress", 60)
     lock_unwind_rule(rep)
+    query_main_rule(rep)
     C54.smart_pointer_rule(rep, funcs, scope_re=r"^mfront::.*::(treat|set|add|register|handle)[A-Z]\w*$", accepted=ACCEPTED, what="mfront")
     rep.floor("iterator dereference sites", 300)
     rep.assumptions += ["a necessary condition only: of termination, only 'no loop has a state-preserving trip' (LOOP-PROGRESS) and 'no unguarded recursion on files' are decided; the other sources of undefined behaviour are not decided",
